@@ -47,7 +47,8 @@ CFG = {
     "lean_modules": ["SuccinctlyVerif.Props.C15"],
     "lean_files": ["SuccinctlyVerif/Props/C15.lean", "SuccinctlyVerif/Proof/YamlEmit.lean",
                    "SuccinctlyVerif/Proof/YamlAnchor.lean", "SuccinctlyVerif/Proof/YamlResolve.lean",
-                   "SuccinctlyVerif/Proof/YamlBlock.lean", "SuccinctlyVerif/Model/YamlEmit.lean",
+                   "SuccinctlyVerif/Proof/YamlBlock.lean", "SuccinctlyVerif/Proof/YamlBlockScalar.lean",
+                   "SuccinctlyVerif/Model/YamlEmit.lean",
                    "SuccinctlyVerif/Model/YamlAnchor.lean", "SuccinctlyVerif/Model/YamlBlock.lean",
                    "SuccinctlyVerif/Spec/YamlScalar.lean"],
     "generated": ["C15"],
@@ -59,7 +60,8 @@ CFG = {
                           "SV.Props.C15.alias_sound", "SV.Props.C15.alias_sound_needs_opaque",
                           "SV.Props.C15.stream_alias_unsound_redeclared", "SV.Props.C15.stream_alias_unsound_navigation",
                           "SV.Props.C15.resolve_plain_is_core_schema", "SV.Props.C15.scalar_reread_core",
-                          "SV.Props.C15.emit_load_partial", "SV.Props.C15.emit_load_indent_partial"],
+                          "SV.Props.C15.emit_load_partial", "SV.Props.C15.emit_load_indent_partial",
+                          "SV.Props.C15.block_scalar_indicator_reread"],
     "nontrivial": _c15_nontrivial,
     "canon": _c15_canon,
     "rule": "request = one decision-function call on a string (quote/resolve, with style, context, indent) or one "
